@@ -473,8 +473,15 @@ class Interp:
                     self.assign(e, ("elem", v, k), stmt)
             return
         tt = self.target_term(tgt)
-        self.emit("store", stmt, target=tt, op=None, value=v)
-        self._after_store(tgt, tt, v, None)
+        # X[s] = X[s] + v  is the same update as  X[s] += v : recorded in the augmented form
+        op = None
+        if tt[0] == "sub" and v[0] == "bin" and v[1] in ("+", "-", "*", "/"):
+            if v[2] == tt:
+                op, v = v[1], v[3]
+            elif v[3] == tt and v[1] in ("+", "*"):
+                op, v = v[1], v[2]
+        self.emit("store", stmt, target=tt, op=op, value=v)
+        self._after_store(tgt, tt, v, op)
 
     def target_term(self, tgt: ast.expr) -> Term:
         if isinstance(tgt, ast.Subscript):
